@@ -136,8 +136,8 @@ def check_case(x, NW, k, nfft, method, sbf=False, fs=1.0, tag='', parts=('pmtm',
     bad = []
     x = np.asarray(x)
     N = len(x); real = bool(np.isrealobj(x))
-    kind = ('real' if real else 'complex') + '/' + method + ('/k1' if k == 1 else '')
     tapers, ev0 = dpss(N, NW, k)
+    kind = ('real' if real else 'complex') + '/' + method + ('/k1' if len(ev0) == 1 else '')
     tapers = np.array(tapers, copy=True); ev0 = np.array(ev0, copy=True)
     kk = len(ev0)
     n = nfft if nfft is not None else max(256, 2 ** int(np.ceil(np.log2(N))))
@@ -256,6 +256,8 @@ def replay(rep):
     x = vlib.unhexv(r['x'])
     if not r.get('complex', False):
         x = np.asarray(x.real, dtype=float)
+    if r.get('dtype') == 'int64':
+        x = x.astype(np.int64)
     return not check_case(x, r['NW'], r['k'], r.get('NFFT'), r['method'], sbf=r.get('scale_by_freq', False), fs=r.get('sampling', 1.0))
 
 
@@ -444,20 +446,26 @@ def run(ctx):
     rng = ctx.rng
     ctx.check_theorems('Properties/C19.v')
 
-    cases, meta = corr_float(ctx, rng, ctx.q(72, 360))
+    cases, meta = corr_float(ctx, rng, ctx.q(72, 600))
     for i in ctx.coq_cases('c19_float', PRE_F, cases, shard=ctx.q(8, 12),
                            descr='pmtm (Sk_complex, weights, eigenvalues, adaptive pass count) and MultiTapering.psd vs Model.Mtm at binary64 with the harness twiddle table'):
         ctx.corr_disagreement(meta[i]['kind'] + ':' + meta[i]['method'], i, meta[i])
 
-    cases, meta = corr_exact(ctx, rng, ctx.q(60, 300))
+    cases, meta = corr_exact(ctx, rng, ctx.q(60, 450))
     c2, m2 = error_branches(ctx)
     cases += c2; meta += m2
+    # pmtm's default NFFT = max(256, 2 ** nextpow2(N)) for every N = 1..1100 (one boolean)
+    from spectrum.tools import nextpow2
+    tab = [(N, int(max(256, 2 ** nextpow2(N)))) for N in range(1, 1101)]
+    cases.append('forallb (fun p => Nat.eqb (pmtm_default_nfft (fst p)) (snd p)) [%s]%%nat' % '; '.join('(%d, %d)' % t for t in tab))
+    meta.append({'kind': 'default-nfft', 'method': None, 'what': 'max(256, 2**nextpow2(N)) for N=1..1100'})
+    ctx.case(('default-nfft-table',), nontrivial=False); ctx.count('corr-exact/default-nfft-table')
     for i in ctx.coq_cases('c19_exact', PRE_Q, cases, shard=ctx.q(8, 30),
                            descr='pmtm / MultiTapering with supplied dyadic tapers, NFFT 2 and 4, vs Model.Mtm over the Gaussian rationals; ValueError branches'):
         ctx.corr_disagreement(meta[i]['kind'] + ':' + str(meta[i].get('method')), i, meta[i])
 
     # ---------------- search on the implementation
-    nsearch = ctx.q(90, 900)
+    nsearch = ctx.q(90, 2400)
     for it in range(nsearch):
         method = METHODS[it % 3]
         cplx = bool((it // 3) % 2)
@@ -473,6 +481,8 @@ def run(ctx):
         k = int(rng.integers(1, int(2 * NW) + 1))
         if it % 6 in (2, 5) and it % 12 < 6:
             k = 1
+        elif it % 11 == 4:
+            k = None                                  # dpss default: round(2 NW)
         mode = rng.choice(['ge', 'eq', 'pow2', 'none'])
         if mode == 'ge':
             nfft = int(N + rng.integers(1, max(2, N)))
@@ -484,14 +494,17 @@ def run(ctx):
             nfft = None
         style = str(rng.choice(['noise', 'tone', 'twotone', 'int', 'scaled']))
         x = gen_data(rng, N, cplx, style)
+        dtype = 'float'
+        if style == 'int' and not cplx and it % 2 == 0:
+            x = x.astype(np.int64); dtype = 'int64'
         sbf = bool(rng.integers(0, 2)); fs = float(rng.choice([1.0, 2.0, 1024.0, 0.5]))
         tag = ('complex' if cplx else 'real')
-        ctx.count('search/%s/%s%s/%s' % (tag, method, '/k1' if k == 1 else '', 'NFFT=' + mode))
-        ctx.case(('search', x.tobytes(), NW, k, nfft, method, sbf, fs), nontrivial=(k >= 2 or method == 'adapt'),
+        ctx.count('search/%s/%s%s/%s' % (tag, method, '/k1' if k == 1 else ('/k-default' if k is None else ''), 'NFFT=' + mode))
+        ctx.case(('search', x.tobytes(), NW, k, nfft, method, sbf, fs), nontrivial=(k is None or k >= 2 or method == 'adapt'),
                  sample={'function': 'pmtm + MultiTapering (search)', 'N': N, 'NW': NW, 'k': k, 'NFFT': nfft, 'method': method, 'data': tag + '/' + style})
         try:
             bad = check_case(x, NW, k, nfft, method, sbf=sbf, fs=fs)
         except Exception as e:  # noqa
             bad = [('check_raises/pmtm/%s/%s' % (tag, method), 'raised %r' % (e,))]
         for key, what in bad:
-            ctx.violation(key, what, {'x': vlib.hexv(x), 'complex': cplx, 'NW': NW, 'k': k, 'NFFT': nfft, 'method': method, 'scale_by_freq': sbf, 'sampling': fs})
+            ctx.violation(key, what, {'x': vlib.hexv(x), 'complex': cplx, 'dtype': dtype, 'NW': NW, 'k': k, 'NFFT': nfft, 'method': method, 'scale_by_freq': sbf, 'sampling': fs})
